@@ -245,7 +245,9 @@ fn compare_idx(m: &Model, cells: &[Cell], d: &refdec::IdxPic) -> Result<(), (Str
     if m.fmt.embeds_font() {
         if d.fonts.is_empty() {
             if used.iter().any(|p| m.fonts[*p as usize] != model::FontM::Default) {
-                return e("font_missing", "custom font but the file carries none".to_string());
+                // the writer decides by the font's NAME whether to store it
+                let class = if used.iter().any(|p| m.names.get(*p as usize) == Some(&20)) { "|own_glyphs_named_like_default_font" } else { "" };
+                return e(&format!("font_missing{class}"), format!("custom font (names {:?}) but the file carries none", m.names));
             }
         } else {
             if d.font_h != m.font_h as usize {
@@ -350,6 +352,9 @@ fn roundtrip(m: &Model, cells: &[Cell], orig: &Buffer, a: &Buffer) -> Result<(),
             "height" | "width" if m.sauce && matches!(m.sauce_meta, 1 | 2 | 3 | 5) => "|sauce_comment_lines",
             // Tundra: no foreground command has been written yet (all cells so far are black on the writer's side)
             "fg" if m.fmt == Fmt::Tnd && (0..=d.cell.unwrap_or(0)).all(|k| pal[cells[k].fg as usize] == [0, 0, 0]) => "|black_before_first_fg_command",
+            // the glyphs changed and a font of the picture carries a foreign name (a SAUCE font's, a built-in page's ...):
+            // names travel in SAUCE records and must not replace glyphs the file embeds
+            "glyph" if m.fmt != Fmt::Xb && m.names.iter().any(|n| *n != 0) => "|font_under_foreign_name",
             "fg" | "bg" | "char" | "blink" | "glyph" | "cell_missing" if m.fmt == Fmt::Xb => {
                 if m.compress {
                     "|compressed"
@@ -487,7 +492,7 @@ fn check_model(m: &Model) -> Verdict {
     let nontrivial = m.h != 25 || m.w != 80 || used.len() >= 2 || ctrl;
     // class = the storage shape for perturbed buffers; for plain ones "plain:" + one letter per dimension that is active:
     // 2 = two font pages used, c = SAUCE with comment lines, r = stale record attached, s = fonts outside slots 0/1,
-    // b = bright foregrounds stored with the BOLD flag, h = height below 25; a trailing ~ = steered model
+    // n = fonts under foreign names, b = bright foregrounds stored with the BOLD flag, h = height below 25; a trailing ~ = steered model
     let mut class = shape.to_string();
     if m.shape % icyv::shape::CODES == 0 {
         class.push(':');
@@ -496,6 +501,7 @@ fn check_model(m: &Model) -> Verdict {
             (m.sauce && matches!(m.sauce_meta, 1 | 2 | 3 | 5), 'c'),
             (m.rec.is_some(), 'r'),
             (!m.slots.is_empty(), 's'),
+            (!m.names.is_empty(), 'n'),
             (cells.iter().any(|c| c.rep != 0), 'b'),
             (m.h < 25, 'h'),
         ] {
@@ -730,7 +736,8 @@ fn main() {
          or with title/author/group at maximal length, or both; 40% of the buffers get a storage shape of icyv::shape::perturb (extra lines, longer rows, larger layer, other terminal size, ...) that leaves the picture unchanged; \
          half of the buffers carry an attached SAUCE record whose technical fields (iCE flag, letter spacing, aspect ratio, font name, size, data/file type) are drawn independently of the buffer (a stale record: \
          only title/author/group/comments/letter spacing/aspect ratio may travel from it, never ice mode, size or font); the model fonts sit in arbitrary font-table slots 0..=42 (either order, slot 0 always holds a font, \
-         up to two further slots hold unused fonts); a bright foreground is stored as fg 8..=15, as fg-8 + BOLD, or as both (all shown alike). Oracle per case: reference decode of the saved bytes = model; \
+         up to two further slots hold unused fonts); font NAMES are independent of the glyphs (own or built-in glyphs under the 16 SAUCE font names, \
+         built-in page names, the default font's name, 'custom font 1', an empty and a 30-character name); a bright foreground is stored as fg 8..=15, as fg-8 + BOLD, or as both (all shown alike). Oracle per case: reference decode of the saved bytes = model; \
          load(save(buffer)) = buffer (size, per cell char / shown fg RGB / bg RGB / blink / glyph table of its font page, ice_mode, palette); load(save(load(file))) shows the same picture. \
          Parts *_fuzz: a saved small buffer mutated by 1..=4 byte/word/insert/delete/truncate/strip-SAUCE/append edits; files the loader rejects (or panics on: C02) are discarded; accepted files \
          are re-saved and re-loaded and must show the same picture. Non-trivial (generated): height != 25 or width != 80 or two font pages used or a character < 0x20 present; \
